@@ -1,6 +1,7 @@
 package main
 
 import (
+	"io"
 	"bytes"
 	"encoding/hex"
 	"fmt"
@@ -55,7 +56,11 @@ func famC10(g *Gen, o *Out, n int, thorough bool) {
 			z = 1
 		}
 		var wrapped bytes.Buffer
-		err := carv2.WrapV1(bytes.NewReader(x), &wrapped, wopts...)
+		var wsrc io.ReadSeeker = bytes.NewReader(x)
+		if g.pick(2) == 0 {
+			wsrc = struct{ io.ReadSeeker }{wsrc} // a source that can only Read and Seek (no ReadAt, no ReadByte)
+		}
+		err := carv2.WrapV1(wsrc, &wrapped, wopts...)
 		res := "r=" + classifyIdx(err)
 		if err == nil {
 			res = "r=ok out=" + hexOr(wrapped.Bytes())
